@@ -109,3 +109,32 @@ func Harness_C01_ViewsAndMixins() {
 	}
 	c01Check("after-walk", map[string]string{"a.sysl": text})
 }
+
+var c01ImportLines = []string{"import", "import ", "import\t", "import\r", "importx", "import:", "import b c", "import  b"}
+
+// near misses of an import line — the keyword alone, followed by a blank, a tab, a carriage
+// return, a letter — as the first line, after a real import, or as the last line without a
+// newline, in the root file or in an imported one
+//
+//verif:shard-quick 8 2
+//verif:shard-thorough 8 2
+func Harness_C01_ImportLines() {
+	line := c01ImportLines[nd.IntRange("line", 0, len(c01ImportLines)-1)]
+	where := nd.IntRange("where", 0, 2) // first line, after an import, last line without newline
+	inImported := nd.Bool("in-imported-file")
+	var text string
+	switch where {
+	case 0:
+		text = line + "\nApp:\n    ...\n"
+	case 1:
+		text = "import c\n" + line + "\nApp:\n    ...\n"
+	default:
+		text = "App:\n    ...\n" + line
+	}
+	files := map[string]string{"a.sysl": text, "b.sysl": "B:\n    ...\n", "c.sysl": "C:\n    ...\n"}
+	if inImported {
+		files["a.sysl"] = "import d\nRoot:\n    ...\n"
+		files["d.sysl"] = text
+	}
+	c01Check("import-line", files)
+}
